@@ -32,6 +32,12 @@ enum annotated {
 struct annotated_opaque { int hidden_a; double hidden_b; };
 /** <div rustbindgen nocopy></div> */
 struct annotated_nocopy { int n; };
+struct ReplaceTarget { int rt; };
+/** <div rustbindgen replaces="ReplaceTarget"></div> */
+extern int replace_count;
+/** <div rustbindgen replaces="ReplacedByStruct"></div> */
+struct Replacement { long r; };
+struct ReplacedByStruct { int old_field; };
 struct fwd;
 struct point { int x, y; };
 struct with_anon_enum {
